@@ -148,20 +148,20 @@ impl Project for FileBackedProject {
     }
 
     fn semantic(&mut self) -> Result<(), Vec<Diagnostic>> {
-        #[cfg(ironplc_verif)]
-        ironplc_dsl::verif::event(
-            "order",
-            self.sources
-                .keys()
-                .map(|k| k.to_string())
-                .collect::<Vec<_>>()
-                .join("|"),
-        );
         // The analysis stops at the first problem each rule finds, so the order of
         // the files decides which problem that is. Use an order that depends on the
         // files and not on the hash map.
         let mut sources: Vec<_> = self.sources.iter_mut().collect();
         sources.sort_by_key(|source| source.0.to_string());
+        #[cfg(ironplc_verif)]
+        ironplc_dsl::verif::event(
+            "order",
+            sources
+                .iter()
+                .map(|source| source.0.to_string())
+                .collect::<Vec<_>>()
+                .join("|"),
+        );
         let library_results: Vec<_> = sources
             .into_iter()
             .map(|source| source.1.library())
